@@ -227,10 +227,24 @@ func evalOb(c *Ctx, e *e1, ob Ob) (nMatched int) {
 		if pat != nil {
 			st := s.term
 			if !unify(pat, st, b) {
-				if os.Getenv("E1DEBUGOB") == ob.ID {
-					fmt.Fprintf(os.Stderr, "  %s: no match %s (chain %q) base=%v\n", ob.ID, st, s.chain, base)
+				// a temporary introduced for part of the sink expression does not change what the sink receives: try the
+				// sink term with variables replaced by their (still valid) definitions
+				matchedX := false
+				if len(s.states) > 0 && s.kind != "ret" || (s.kind == "ret" && len(s.states) > 0) {
+					for _, x := range f.expandDefs(s.states[0], st) {
+						nb := base.clone()
+						if unify(pat, x, nb) {
+							b, matchedX = nb, true
+							break
+						}
+					}
 				}
-				continue
+				if !matchedX {
+					if os.Getenv("E1DEBUGOB") == ob.ID {
+						fmt.Fprintf(os.Stderr, "  %s: no match %s (chain %q) base=%v\n", ob.ID, st, s.chain, base)
+					}
+					continue
+				}
 			}
 		}
 		excluded := false
